@@ -1121,6 +1121,7 @@ func (sb *seqbag) TrimNames(namemap map[string]string, size int) error {
 			for ok2 {
 				id++
 				if id > 99 {
+					sb.reindex()
 					return errors.New("More than 100 identical short names (" + newname + "), cannot shorten the names")
 				}
 				_, ok2 = shortmap[fmt.Sprintf("%s%02d", newname, id)]
@@ -1129,10 +1130,9 @@ func (sb *seqbag) TrimNames(namemap map[string]string, size int) error {
 			shortmap[newname] = true
 			namemap[seq.Name()] = newname
 		}
-		delete(sb.seqmap, seq.name)
 		seq.name = newname
-		sb.seqmap[seq.name] = seq
 	}
+	sb.reindex()
 
 	return nil
 }
